@@ -147,6 +147,14 @@ def analyse(unit, vr, linemap, report, gen_path='', frame_type=None):
         prim = [s for s in spans if s['primary']]
         sec = [s for s in spans if not s['primary']]
         fnspan = enclosing_fn(report, prim[0]['gen_line']) if prim else None
+        # a postcondition inherited from a trait declaration: the clause span lies in the trait, the exit
+        # span ("at the end of the function body" / "at this exit") lies in the impl method that failed it
+        for s_ in spans:
+            if s_.get('label') and re.search(r'end of the function body|at this exit|returned here', s_['label']) and s_['gen_line']:
+                fs2 = enclosing_fn(report, s_['gen_line'])
+                if fs2:
+                    fnspan = fs2
+                break
         fn = fnspan['fn'] if fnspan else '?'
         # the clause: a vspec-origin span (secondary for pre/post; primary for invariants/asserts in spliced text)
         clause = None
@@ -248,7 +256,10 @@ def isolate_clauses(name, outdir, repo, contracts, fn_disp, report):
     longer verifies.  Returns (failures, undecided)."""
     from concurrent.futures import ThreadPoolExecutor
     clauses = [c for c in report['clauses'] if c['fn'] == fn_disp and c['section'] == 'ensures' and c.get('mode') == 'verify' and 'loop' not in c]
-    mod = fn_disp.rsplit('::', 1)[0] if '::' in fn_disp else ''
+    segs = fn_disp.split('::')[:-1]
+    k_ = 0
+    while k_ < len(segs) and re.match(r'^[a-z_0-9]+$', segs[k_]): k_ += 1
+    mod = '::'.join(segs[:k_])
     def one(cl):
         u = splice.Unit(name, repo=repo, contracts=contracts)
         u.clause_filter = {fn_disp: {cl['first']}}
